@@ -40,7 +40,9 @@ MANIFEST = {
             'to the code by evaluating it inside Coq on what the real code did, for the set-enumeration order actually used.',
     'note': 'Trusted: Coq kernel/vm_compute; specification coq/theory/Circuit.v; hand model coq/theory/RewriteModel.v validated by '
             'correspondence on every run (simplify incl. namer, wires, dangling/disconnected removal, select/ignore/keep_nodes/passes; '
-            'renumber, copy, expand, subs, s_model, noisy+kill_noise, replace_switches[_before]); in_series/in_parallel/'
+            'renumber incl. a model of augment_node_map on structured node names (partial maps, numeral targets inside/above the pool of fresh '
+            'numbers, symbolic, wires) and the contract of the node map used (injective on nodes and equipotential classes, reference node '
+            'fixed, requested pairs honoured), copy, expand, subs, s_model, noisy+kill_noise, replace_switches[_before]); in_series/in_parallel/'
             '_find_combine_subsets and set enumeration order are recorded oracles whose contract is checked per answer; '
             'series_combine_sound / parallel_combine_sound lift the chain theorems to whole netlists from the boolean facts the '
             'contract check computes (walk on node names, private degree-2 joints, distinct names); they apply directly when the '
@@ -311,7 +313,8 @@ def run(tier='quick', replay=None):
                        'specification coq/theory/Circuit.v (drawn_*/brel_* of each component class)',
                        'hand model coq/theory/RewriteModel.v (validated by correspondence on every run)',
                        'oracles (recorded, contract checked per answer): CircuitGraph.in_series / in_parallel, _find_combine_subsets, '
-                       'set enumeration order (list(subset), subset.copy().pop()), augment_node_map',
+                       'set enumeration order (list(subset), subset.copy().pop()); for renumber: the dict self.equipotential_nodes and the string order used by sorted() '
+                       '(augment_node_map itself is modelled in coq/theory/RewriteRenum.v and compared with the returned dict)',
                        'tools/impl_rewrite.py (re-parses netlist text, solves both circuits), vlib/rewriteenc.py (encoding, contract witness)']
         res.assumptions = ['characteristic-0 field with decidable equality; Laplace variable s <> 0 (covers transient, ivp and ac s = j omega)',
                            'a wire is an ideal 0 V branch; the waveform keyword of a source is a linear factor kwf(keyword) of its value',
